@@ -36,6 +36,8 @@ type Fn struct {
 
 	aliases map[*types.Var]ast.Expr
 	flagOf  map[*types.Var]int
+	fresh   map[*types.Var]bool // locals holding an object created in this function
+	Needs   []int               // guard classes the caller must hold (inferred, see inferNeeds)
 }
 
 type interner struct {
@@ -62,9 +64,15 @@ type Tr struct {
 	fns       []*Fn
 	byObj     map[*types.Func]*Fn
 	byLit     map[*ast.FuncLit]*Fn
-	locks     interner // "class|name"
-	lockClass []int
-	classes   interner
+	lockIDs   map[string]int    // "class|name" -> id = 1000*guard class + serial
+	lockKey   map[int][2]string // id -> (base class, name)
+	lockOrder []int             // ids in order of creation
+	serial    map[int]int       // guard class -> next serial
+	baseOf    []int             // guard class -> base guard class (read mode -> the mutex itself)
+	classes   interner          // guard classes: "pkg.Type.field" and "pkg.Type.field#R"
+	guards    Guards
+	guardIdx  map[string][]GuardType
+	nTouches  int
 	piles     interner
 	flags     interner
 	whys      interner
@@ -75,6 +83,28 @@ type Tr struct {
 	skipUsed  map[string]bool
 	implCache map[string][]*Fn
 	noCHA     bool
+}
+
+// Guards is tools/lockskel/guards.json.
+type Guards struct {
+	Types   []GuardType         `json:"types"`
+	Methods []GuardMethods      `json:"methods"`
+	Needs   map[string][]string `json:"needs"`  // override of the inferred entry requirement of a function
+	Exempt  map[string]string   `json:"exempt"` // functions whose touches are not checked, with the reason
+}
+
+type GuardType struct {
+	Type   string   `json:"type"`
+	Locks  []string `json:"locks"`
+	Fields []string `json:"fields"`
+}
+
+type GuardMethods struct {
+	FieldType string   `json:"fieldType"`
+	Read      []string `json:"read"`
+	Write     []string `json:"write"`
+	Check     []string `json:"check"`
+	Act       []string `json:"act"`
 }
 
 type SigmaEntry struct {
@@ -101,14 +131,44 @@ func (c ctx) loopBody() ctx { c.top = false; c.inLoop = true; return c }
 
 func (c ctx) nested() ctx { c.top = false; return c }
 
-func (t *Tr) lockID(class, name string) int {
-	n := len(t.locks.names)
-	id := t.locks.id(class + "|" + name)
-	if id == n {
-		t.lockClass = append(t.lockClass, t.classes.id(class))
+// guardClass interns a guard class; the read mode of an RWMutex is a class of its own.
+func (t *Tr) guardClass(class string, read bool) int {
+	n := len(t.classes.names)
+	b := t.classes.id(class)
+	if b == n {
+		t.baseOf = append(t.baseOf, b)
 	}
+	if !read {
+		return b
+	}
+	n = len(t.classes.names)
+	r := t.classes.id(class + "#R")
+	if r == n {
+		t.baseOf = append(t.baseOf, b)
+	}
+	return r
+}
+
+// lockID: id = 1000 * guard class + serial (see Model/LockSkel.lean, `gcls`).
+func (t *Tr) lockID(class, name string) int {
+	key := class + "|" + name
+	if id, ok := t.lockIDs[key]; ok {
+		return id
+	}
+	gc := t.guardClass(class, strings.HasSuffix(name, "#R"))
+	k := t.serial[gc]
+	if k >= 999 {
+		die("more than 998 lock expressions of class %s", class)
+	}
+	t.serial[gc] = k + 1
+	id := 1000*gc + k
+	t.lockIDs[key] = id
+	t.lockKey[id] = [2]string{class, name}
+	t.lockOrder = append(t.lockOrder, id)
 	return id
 }
+
+func (t *Tr) ghostID(gc int) int { return 1000*gc + 999 }
 
 func (t *Tr) line(p token.Pos) int { return t.fset.Position(p).Line }
 
@@ -352,6 +412,11 @@ func (t *Tr) analyse(f *Fn, body *ast.BlockStmt, info *types.Info) {
 			defined[v] = true
 		}
 		rhsOf[v] = rhs
+		if def && (rhs == nil || isFreshExpr(rhs)) {
+			f.fresh[v] = true
+		} else if !def {
+			delete(f.fresh, v) // re-assigned: may now point to a shared object
+		}
 		if rhs != nil && !isConstBool(rhs) {
 			nonConst[v] = true
 		}
@@ -468,6 +533,182 @@ func (f *Fn) flagFor(v *types.Var) (int, bool) {
 	return 0, false
 }
 
+// ---- guarded-by ---------------------------------------------------------------------
+
+func in(xs []string, x string) bool {
+	for _, y := range xs {
+		if x == y {
+			return true
+		}
+	}
+	return false
+}
+
+// guardOfField returns the lock classes guarding field `name` of the struct type `ty`.
+func (t *Tr) guardOfField(ty types.Type, name string) []string {
+	for _, g := range t.guardIdx[shortType(ty)] {
+		if len(g.Fields) == 0 || in(g.Fields, name) {
+			return g.Locks
+		}
+	}
+	return nil
+}
+
+// freshLocal: is the root of the expression a local variable that was created in this
+// function (x := &T{...}, x := T{...}, x := new(T), var x T)? Such an object is not
+// shared yet; initialising it needs no lock.
+func (t *Tr) freshLocal(c ctx, e ast.Expr) bool {
+	for {
+		switch x := e.(type) {
+		case *ast.ParenExpr:
+			e = x.X
+			continue
+		case *ast.StarExpr:
+			e = x.X
+			continue
+		case *ast.SelectorExpr:
+			e = x.X
+			continue
+		case *ast.IndexExpr:
+			e = x.X
+			continue
+		case *ast.Ident:
+			v, ok := c.pkg.TypesInfo.Uses[x].(*types.Var)
+			if !ok {
+				return false
+			}
+			for g := c.fn; g != nil; g = g.Parent {
+				if g.fresh[v] {
+					return true
+				}
+			}
+			return false
+		}
+		return false
+	}
+}
+
+// fieldTouched finds the field that an assignment to `lhs` mutates: the innermost
+// selector of a struct field, looking through indexing and dereferences.
+func (t *Tr) fieldTouched(c ctx, lhs ast.Expr) (types.Type, string, bool) {
+	e := lhs
+	for {
+		switch x := e.(type) {
+		case *ast.ParenExpr:
+			e = x.X
+			continue
+		case *ast.StarExpr:
+			e = x.X
+			continue
+		case *ast.IndexExpr:
+			e = x.X
+			continue
+		case *ast.SliceExpr:
+			e = x.X
+			continue
+		case *ast.SelectorExpr:
+			sel, ok := c.pkg.TypesInfo.Selections[x]
+			if !ok || sel.Kind() != types.FieldVal {
+				return nil, "", false
+			}
+			// walk embedded fields: the struct that declares the field
+			recv := sel.Recv()
+			path := sel.Index()
+			for _, i := range path[:len(path)-1] {
+				recv = derefStruct(recv).Field(i).Type()
+			}
+			return recv, x.Sel.Name, true
+		}
+		return nil, "", false
+	}
+}
+
+func derefStruct(ty types.Type) *types.Struct {
+	for {
+		if p, ok := ty.Underlying().(*types.Pointer); ok {
+			ty = p.Elem()
+			continue
+		}
+		break
+	}
+	st, _ := ty.Underlying().(*types.Struct)
+	return st
+}
+
+// needNode: a mutation of state guarded by `locks` (write mode) / a read (either mode).
+func (t *Tr) needNode(locks []string, read bool, pos token.Pos) *S {
+	var cs []int
+	for _, l := range locks {
+		cs = append(cs, t.guardClass(l, false))
+		if read {
+			cs = append(cs, t.guardClass(l, true))
+		}
+	}
+	t.nTouches++
+	return &S{K: "need", Ren2: cs, Tag: t.line(pos)}
+}
+
+// touch: the guarded-by obligation of an assignment to lhs (skip if unguarded).
+func (t *Tr) touch(c ctx, lhs ast.Expr) *S {
+	if _, exempt := t.guards.Exempt[c.fn.Name]; exempt {
+		return skipS
+	}
+	ty, name, ok := t.fieldTouched(c, lhs)
+	if !ok {
+		return skipS
+	}
+	locks := t.guardOfField(ty, name)
+	if locks == nil || t.freshLocal(c, lhs) {
+		return skipS
+	}
+	return t.needNode(locks, false, lhs.Pos())
+}
+
+// guardedMethodCall: x.f.M(...) where f is a guarded field whose type has declared
+// read/write (and check/act) methods.
+func (t *Tr) guardedMethodCall(c ctx, call *ast.CallExpr) *S {
+	if _, exempt := t.guards.Exempt[c.fn.Name]; exempt {
+		return skipS
+	}
+	sel, ok := ast.Unparen(call.Fun).(*ast.SelectorExpr)
+	if !ok {
+		return skipS
+	}
+	tv, ok := c.pkg.TypesInfo.Types[sel.X]
+	if !ok || tv.Type == nil {
+		return skipS
+	}
+	for _, m := range t.guards.Methods {
+		if shortType(tv.Type) != m.FieldType {
+			continue
+		}
+		ty, name, ok := t.fieldTouched(c, sel.X)
+		if !ok {
+			return skipS
+		}
+		locks := t.guardOfField(ty, name)
+		if locks == nil || t.freshLocal(c, sel.X) {
+			return skipS
+		}
+		var out []*S
+		meth := sel.Sel.Name
+		if in(m.Write, meth) {
+			out = append(out, t.needNode(locks, false, call.Pos()))
+		} else if in(m.Read, meth) {
+			out = append(out, t.needNode(locks, true, call.Pos()))
+		}
+		base := t.guardClass(locks[0], false)
+		if in(m.Check, meth) {
+			out = append(out, &S{K: "mark", L: 0, P: base, Tag: t.line(call.Pos())})
+		}
+		if in(m.Act, meth) {
+			out = append(out, &S{K: "mark", L: 1, P: base, Tag: t.line(call.Pos())})
+		}
+		return seqs(out...)
+	}
+	return skipS
+}
+
 // ---- statements -------------------------------------------------------------------
 
 func terminates(list []ast.Stmt) bool {
@@ -576,7 +817,7 @@ func (t *Tr) stmt(c ctx, st ast.Stmt) *S {
 	case *ast.SendStmt:
 		return seq(t.expr(c, x.Chan), t.expr(c, x.Value))
 	case *ast.IncDecStmt:
-		return t.expr(c, x.X)
+		return seq(t.expr(c, x.X), t.touch(c, x.X))
 	case *ast.AssignStmt:
 		var out []*S
 		for _, r := range x.Rhs {
@@ -585,6 +826,7 @@ func (t *Tr) stmt(c ctx, st ast.Stmt) *S {
 		for _, l := range x.Lhs {
 			if _, ok := l.(*ast.Ident); !ok {
 				out = append(out, t.expr(c, l))
+				out = append(out, t.touch(c, l))
 			}
 		}
 		if len(x.Lhs) == len(x.Rhs) {
@@ -903,12 +1145,18 @@ func (t *Tr) call(c ctx, call *ast.CallExpr, isDefer bool) *S {
 		if id.Name == "panic" && info.Uses[id] != nil && info.Uses[id].Parent() == types.Universe {
 			return atom("panic")
 		}
+		if (id.Name == "delete" || id.Name == "clear") && info.Uses[id] != nil && info.Uses[id].Parent() == types.Universe && len(call.Args) > 0 {
+			return t.touch(c, call.Args[0])
+		}
 		// local variable bound once to a literal: inline its body
 		if v, ok := info.Uses[id].(*types.Var); ok {
 			if rhs, ok := c.fn.litFor(v); ok {
 				return t.inlineLit(c, rhs, call)
 			}
 		}
+	}
+	if g := t.guardedMethodCall(c, call); g.K != "skip" {
+		return g
 	}
 	fn := calleeOf(info, call)
 	if fn == nil {
@@ -1164,10 +1412,12 @@ func substName(name string, actual map[string]string) (string, bool) {
 	return name, false
 }
 
-func (t *Tr) classOfLock(id int) string { return t.classes.names[t.lockClass[id]] }
+func (t *Tr) classOfLock(id int) string { return t.lockKey[id][0] }
 func (t *Tr) nameOfLock(id int) string {
-	s := t.locks.names[id]
-	return s[strings.Index(s, "|")+1:]
+	if id%1000 == 999 {
+		return "‹caller›"
+	}
+	return t.lockKey[id][1]
 }
 
 // collect lock ids mentioned directly
@@ -1193,6 +1443,153 @@ func (s *S) acqIDs(acc map[int]bool) {
 	}
 	s.A.acqIDs(acc)
 	s.B.acqIDs(acc)
+}
+
+// lock ids released directly
+func (s *S) relIDs(acc map[int]bool) {
+	if s == nil {
+		return
+	}
+	if s.K == "rel" || s.K == "pileUnlock" {
+		acc[s.L] = true
+	}
+	s.A.relIDs(acc)
+	s.B.relIDs(acc)
+}
+
+// guard-class alternatives of the need nodes
+func (s *S) needs(acc *[][]int) {
+	if s == nil {
+		return
+	}
+	if s.K == "need" {
+		*acc = append(*acc, s.Ren2)
+	}
+	s.A.needs(acc)
+	s.B.needs(acc)
+}
+
+// dropNeeds removes the need nodes selected by `drop`.
+func (s *S) dropNeeds(drop func([]int) bool) *S {
+	if s == nil {
+		return nil
+	}
+	if s.K == "need" && drop(s.Ren2) {
+		return skipS
+	}
+	if s.A == nil && s.B == nil {
+		return s
+	}
+	c := *s
+	c.A, c.B = s.A.dropNeeds(drop), s.B.dropNeeds(drop)
+	return &c
+}
+
+// inferNeeds infers, for every function that mutates guarded state (directly or
+// through calls) without taking a lock of the guarding class itself, the entry
+// requirement "my caller holds a lock of that class": the ghost lock of the class is
+// added to the function's summary (req and post). The checker then verifies the touches
+// inside the function against the ghost and, at every translated call site, that the
+// caller really holds a lock of that class (callA). Exported functions and methods
+// get no such requirement: they must take the lock themselves.
+// State guarded by "lock A or lock B" (NFSv4.1 client state) is only checked in
+// functions that take one of the locks themselves; in helpers these touches are dropped
+// and the helper is listed (returned).
+func (t *Tr) inferNeeds(rel []*Fn) []string {
+	base := func(gc int) int { return t.baseOf[gc] }
+	selfAcq := map[*Fn]map[int]bool{}
+	for _, f := range rel {
+		m := map[int]bool{}
+		ids := map[int]bool{}
+		f.Body.acqIDs(ids)
+		for _, id := range append(append([]int{}, f.Req...), f.Post...) {
+			ids[id] = true
+		}
+		var cs []*CallSite
+		f.Body.calls(&cs)
+		for _, c := range cs {
+			for _, id := range c.Callee.Post {
+				ids[id] = true
+			}
+		}
+		for id := range ids {
+			m[base(id/1000)] = true
+		}
+		selfAcq[f] = m
+	}
+	// either-lock touches in functions that take none of the alternatives
+	var either []string
+	for _, f := range rel {
+		dropped := false
+		f.Body = f.Body.dropNeeds(func(cs []int) bool {
+			bases := map[int]bool{}
+			for _, c := range cs {
+				bases[base(c)] = true
+			}
+			if len(bases) < 2 {
+				return false
+			}
+			for b := range bases {
+				if selfAcq[f][b] {
+					return false
+				}
+			}
+			dropped = true
+			return true
+		})
+		if dropped {
+			either = append(either, f.Name)
+		}
+	}
+	need := map[*Fn]map[int]bool{}
+	for _, f := range rel {
+		need[f] = map[int]bool{}
+	}
+	forced := func(f *Fn) ([]string, bool) { v, ok := t.guards.Needs[f.Name]; return v, ok }
+	for changed := true; changed; {
+		changed = false
+		for _, f := range rel {
+			if _, ok := forced(f); ok || f.Exported {
+				continue
+			}
+			var want []int
+			var ns [][]int
+			f.Body.needs(&ns)
+			for _, cs := range ns {
+				want = append(want, base(cs[0]))
+			}
+			var cs []*CallSite
+			f.Body.calls(&cs)
+			for _, c := range cs {
+				for gc := range need[c.Callee] {
+					want = append(want, gc)
+				}
+			}
+			for _, gc := range want {
+				if !selfAcq[f][gc] && !need[f][gc] {
+					need[f][gc] = true
+					changed = true
+				}
+			}
+		}
+	}
+	for _, f := range rel {
+		if v, ok := forced(f); ok {
+			for _, cl := range v {
+				need[f][t.guardClass(cl, false)] = true
+			}
+		}
+		for gc := range need[f] {
+			f.Needs = append(f.Needs, gc)
+		}
+		sort.Ints(f.Needs)
+		for _, gc := range f.Needs {
+			f.Req = append(f.Req, t.ghostID(gc))
+			f.Post = append(f.Post, t.ghostID(gc))
+		}
+	}
+	sort.Strings(either)
+	return either
 }
 
 func (s *S) calls(acc *[]*CallSite) {
